@@ -205,6 +205,7 @@ CURATED_GAS = ['c1ccccc1', 'Cc1ccccc1', 'C1CCCCC1', 'C1=CCCCC1', 'CC(=O)O', 'CC(
                # molecules in which several scheme entries carrying the SAME correction name match (gauche / cis counts add up)
                'CC(C)C(C)CC(C)(C)C', 'CC(C)C(C)C', 'CC(C)(C)C(C)(C)C', 'C/C=C\\C(C)(C)C', 'CC(C)(C)/C=C\\C(C)(C)C', 'C1CCOCC1', 'C1=CC=CCC1', 'C1CC=CC=C1']
 CURATED_SURF = ['C([{M}])C', '[{M}]C', 'C([{M}])([{M}])C', 'O([{M}])C', 'C([{M}])C[{M}]', 'C(=O)([{M}])O', '[{M}]C([{M}])C([{M}])([{M}])C=O', '[{M}]C([{M}])C([{M}])([{M}])C',
+                'C~[{M}]', 'O=C(=O)~[{M}]', 'CO~[{M}]', 'O~[{M}]',       # weak ('~', unspecified) bonds to the surface
                 '[H][H]', '[H]', '[H][{M}]', 'CC', 'CCC', 'CCO', 'C([{M}])O', 'OC([{M}])C', '[{M}]O', 'C([{M}])([{M}])([{M}])C', 'C=O', 'CC=O', 'C([{M}])=O', '[{M}]OC', 'C(O)([{M}])C[{M}]', 'OCCO']
 
 
